@@ -497,8 +497,8 @@ def _header_case(rng, proj, k, n, seed):
 
 
 def cases(seed, tier):
-    per_proj = 24 if tier == 'quick' else 100
-    n = 300 if tier == 'quick' else 800
+    per_proj = 16 if tier == 'quick' else 100
+    n = 300 if tier == 'quick' else 600
     out = []
     for proj in wz.PROJECTIONS:
         for k in range(per_proj):
